@@ -1146,7 +1146,8 @@ def _logical_or(a, b):
 _sum_sym = symaware('sum', alg.jnp_sum)
 
 
-def _count_nonzero_model(x, *a, **k):
+def _count_nonzero_model(a, *rest, **k):
+    x, a = a, rest
     """count_nonzero of a comparison counts its true entries; count_nonzero of an ARRAY x is written through the count of its zero
     entries, size(x) - count_nonzero(x == 0), so that `x.size - count_nonzero(x)` and `count_nonzero(x == 0)` are the same term"""
     if a or {kk for kk, v in k.items() if v is not None}:
@@ -1678,7 +1679,7 @@ _API_NAMES = {
         'hstack': dict(tup='items'), 'column_stack': dict(tup='items'), 'vstack': dict(tup='items'), 'broadcast_to': dict(array='a'),
         'sum': dict(a='x'), 'tile': dict(A='a'), 'reshape': dict(newshape='shape'),
         'diag': dict(v='a'), 'any': dict(a='x'), 'all': dict(a='x'), 'unravel_index': dict(indices='idx'),
-        'split': dict(ary='a', indices_or_sections='indices'), 'where': dict(condition='c', x='a', y='b'),
+        'split': dict(ary='a'), 'where': dict(condition='c', x='a', y='b'),
         'full': dict(fill_value='value'), 'full_like': dict(fill_value='v'), 'eye': dict(N='n'),
         'swapaxes': dict(axis1='i', axis2='j'), 'logical_and': dict(x1='a', x2='b'), 'logical_or': dict(x1='a', x2='b'),
     },
